@@ -2,6 +2,7 @@ import HmsProofs.Lemmas.SimPipeline
 import HmsProofs.Lemmas.SimPureFinal
 import HmsProofs.Lemmas.SimStmtFinal
 import HmsProofs.Lemmas.SimSlots
+import HmsProofs.Lemmas.SimGGlue
 /-!
 # C01 (part 2) — the compiler and the VM simulate the specification semantics
 
@@ -24,7 +25,18 @@ the Go code and a concrete instance.
    is such a statement block: what `compileFn` emits, that its slots fit the frame reserved by
    `AddMempointer`, and that running it from its first instruction returns to the caller having
    simulated the specification (label hygiene, relocation, renaming and the initial relation are
-   all discharged, no `Placed`/`StRel` hypothesis is left).
+   all discharged, no `Placed`/`StRel` hypothesis is left);
+8. `loadSingleton_*` — singletons;
+9. `fn_compiled_ok`, `call_correct`, `call_returns`, `call_expr_correct`, `call_args_correct`,
+   `args_order_witness_*` — calls of top-level functions (recursion included): arguments in
+   reverse order, `Call_Imm`, the callee's prologue/parameters/epilogue, `Return`, by induction
+   on the specification's fuel; arguments must be atoms except at most one (finding V13, with
+   kernel-checked witnesses that two effectful — or two failing pure — arguments break it);
+10. `gstmts_correct`, `loop_correct` — `loop`/`while` with `break`/`continue`, `return e;`,
+    call statements: the VM follows `loopRun`;
+11. `println_spec`, `println_vm`, `println_correct` — `println` of the fragment's values: the
+    output buffers agree.
+   (Proofs of 9–11: `Lemmas/SimG*.lean`, combined in `SimGAll.allP`.)
 -/
 namespace HmsProofs.C01VM
 open Hms.Core Hms.Core.Comp Hms.Core.VM HmsProofs.Sim
@@ -840,5 +852,506 @@ example : (match compile singProg "main" 100 with
     | .error e => e) = "10\n21\n2\n" := by
   decide +kernel
 end SingletonWitness
+
+/-! ## 9. Calls of top-level functions -/
+
+/-- **A compiled function satisfies the hypotheses of the call simulation** (`FnOK`). The
+function `fd` has ordinary parameters, statements `stmts` of the general fragment
+(`Frag.okGSs`: `let`, assignment, `if`, `while`, `loop`, `break`, `continue`, `return e;`, call
+statements, `println(…)`) and a trailing expression `e` (`Frag.okGE`: the pure fragment plus
+calls `f(a₁, …, aₙ)` of top-level functions in which *all arguments but at most one are atoms* —
+literals or local variables, `Frag.oneNonAtom`; see `args_order_witness` for why). Its symbolic
+code is `cgFn …` = `AddMempointer(n); SetVar p₁ … SetVar pₖ; statements; expression;
+cleanup: AddMempointer(-n); Return`, where a call is `code(aₙ) … code(a₁); Call_Imm f`;
+`relocateLabels` turns it into `r` and the VM holds `renameVariables r` under the function's
+mangled name. The remaining side conditions are static and decidable for a given function:
+labels defined once, slots below the frame size `n`, `n ≤ G.F`, well-scopedness, the tracked
+identifiers `T`. -/
+theorem fn_compiled_ok (G : GCtx) (fd : FnDef) (stmts : List Stmt) (e : Expr) (φ : String → Option String)
+    (scopes0 : CScopes) (vm0 : List (String × Nat)) (lm0 : LM) (T : List String) (r : NCode)
+    (hbody : ∃ bsp bty, fd.body = .mk bsp bty stmts (some e))
+    (hparams : ∀ p ∈ fd.params, p.isSingleton = false)
+    (hrel : relocate (cgFn G.mod φ fd stmts (some e) scopes0 vm0 lm0) = some r)
+    (hnodup : (definedLabels (cgFn G.mod φ fd stmts (some e) scopes0 vm0 lm0)).Nodup)
+    (hcode : findCode G.code (mangleFnName G.mod fd.name) = some (renameVars r))
+    (hslot : ∀ m ∈ varNames r, slotFn r m < (fnParts G.mod φ fd stmts (some e) scopes0 vm0 lm0).envE.nv)
+    (hframe : (fnParts G.mod φ fd stmts (some e) scopes0 vm0 lm0).envE.nv ≤ G.F)
+    (okS : Frag.okGSs false stmts = true) (okE : Frag.okGE e = true)
+    (wsS : Frag.wsGSs G.mod fd.name φ [] stmts (fnParts G.mod φ fd stmts (some e) scopes0 vm0 lm0).envB = true)
+    (wsE : Frag.wsGE (fnParts G.mod φ fd stmts (some e) scopes0 vm0 lm0).envS.scopes φ e = true)
+    (tParams : ∀ p ∈ fd.params, p.name ∈ T) (tIdents : ∀ x ∈ Frag.identsGSs stmts, x ∈ T)
+    (tVars : ∀ x ∈ Frag.namesGE e, x ∈ T) (key : cleanupKey G.mod fd.name ∉ T)
+    (outer : ∀ sc ∈ scopes0, ∀ x ∈ T, sc.lookup x = none) (phi : PhiOK G φ) :
+    FnOK G fd.name fd
+      ⟨renameVars r, slotFn r, labelIndex (cgFn G.mod φ fd stmts (some e) scopes0 vm0 lm0), (· ∈ varNames r), T, φ,
+        scopes0, vm0, lm0⟩ stmts e :=
+  FnOK.of_relocate G fd stmts e φ scopes0 vm0 lm0 T r hbody hparams hrel hnodup hcode hslot hframe okS okE wsS wsE
+    tParams tIdents tVars key outer phi
+
+/-- **A call on the VM is the specification's call** (`Sem.callBody`, which is what
+`evalCall`/`applyFn` run for a function value). Context `G` (`G.OK`): every callable function
+(`G.K`) of the module is `FnOK`; frames are at most `G.F` cells and
+`G.B + (callLimit + 2) · G.F < memory` (the VM has no depth check of its own at `Call_Imm`; the
+room hypothesis is what keeps `AddMempointer` from failing before the specification's
+`StackOverFlow`); `println` is not shadowed. The specification state `st` is in the program's
+module, with no globals, the VM's heap, and call depth `d` with `mp ≤ G.B + d · G.F`.
+
+Then (`SimCall`), for *every* fuel — the proof is by strong induction on the specification's
+fuel, so recursion, direct or mutual, is covered — starting at the callee's first instruction
+with the arguments on the operand stack (first argument on top):
+* result `v` ↦ only the output of the specification state changed, and the VM runs prologue
+  (`AddMempointer n`, one `SetVar` per parameter), body (all nested calls, loops, `return`s
+  included) and epilogue, and is back in the caller's frames `frames` with the same memory pointer,
+  `v` pushed on the caller's stack, the same output, and the caller's memory cells (`≤ mp`)
+  untouched;
+* a fatal error other than the specification's own `StackOverFlow` ↦ the VM stops with the same
+  fatal interrupt (kind, message, span) after the same output;
+* `break`/`continue`/`throw` never escape a call of the fragment. -/
+theorem call_correct (G : GCtx) (hG : G.OK) (fuel : Nat) (g : String) (fd : FnDef) (I : FnInfo)
+    (stmts : List Stmt) (e : Expr) (hK : G.K g) (hfind : findFn G.cfg.prog G.mod g = some fd)
+    (hFn : FnOK G g fd I stmts e) (sp : Span) (vals : List Val) (st : St) (frames : List Frame) (mp : Int)
+    (stk : List SVal) (mem : List (Int × Val)) (hsp : SpecOK G mp st) (hmp : 0 ≤ mp) :
+    SimCall G (mangleFnName G.mod g) frames mp vals stk mem st
+      (callBody G.cfg fuel sp G.mod fd.params fd.body vals st) :=
+  (allP G hG fuel).pcall g fd I stmts e hK hfind hFn sp vals st frames mp stk mem hsp hmp
+
+/-- `call_correct` for a call that returns, spelled out on `VM.step` sequences (`mkS G.s calls mp k
+stk mem out`: the base state with these frames, memory pointer, operand stack, memory, output
+and `k` more steps on the counter). -/
+theorem call_returns (G : GCtx) (hG : G.OK) (fuel : Nat) (g : String) (fd : FnDef) (I : FnInfo)
+    (stmts : List Stmt) (e : Expr) (hK : G.K g) (hfind : findFn G.cfg.prog G.mod g = some fd)
+    (hFn : FnOK G g fd I stmts e) (sp : Span) (vals : List Val) (st st' : St) (v : Val) (frames : List Frame)
+    (mp : Int) (stk : List SVal) (mem : List (Int × Val)) (hsp : SpecOK G mp st) (hmp : 0 ≤ mp)
+    (hev : callBody G.cfg fuel sp G.mod fd.params fd.body vals st = (.ok v, st')) :
+    st' = { st with out := st'.out } ∧
+    ∃ mem', (∀ k, ∃ k', execN G.code G.lim k'
+        (mkS G.s (⟨mangleFnName G.mod g, 0⟩ :: frames) mp k (vals.map (⟨·, none⟩) ++ stk) mem st.out) =
+          .next (mkS G.s frames mp (k + k') (⟨v, none⟩ :: stk) mem' st'.out)) ∧
+      ∀ a, a ≤ mp → mem'.lookup a = mem.lookup a := by
+  have h := call_correct G hG fuel g fd I stmts e hK hfind hFn sp vals st frames mp stk mem hsp hmp
+  rw [hev] at h
+  exact h
+
+/-- **Expressions with calls inside an activation** (`SimGE`). The activation `A` (`A.OK`): frame
+`⟨A.fn, ·⟩ :: A.rest`, memory pointer `A.mp` after the prologue, code `A.c`, slots `A.σ` below
+the frame size `A.nv`, function table `A.φ`. For `e` of the fragment, well scoped, its code
+`cgE …` placed at `ip`, the scopes related (`StRel`): a value ↦ the VM reaches the end of the
+code with the value pushed — every call having gone through `Call_Imm`, the callee's frame and
+`Return` — with the specification's output and the activation's cells untouched; fatal ↦ same
+fatal interrupt. -/
+theorem call_expr_correct (G : GCtx) (hG : G.OK) (fuel : Nat) (A : Act) (hA : A.OK G) (e : Expr) (st : St)
+    (ip : Nat) (stk : List SVal) (mem : List (Int × Val)) (lm : LM) (scopes : CScopes) (vm : List (String × Nat))
+    (hs : Frag.okGE e = true) (hws : Frag.wsGE scopes A.φ e = true) (hT : ∀ x ∈ Frag.namesGE e, x ∈ A.T)
+    (hpl : Placed A.lab A.σ A.c ip (cgE G.mod (ρS scopes) A.φ e lm).1)
+    (hrel : StRel G.mod A.T A.N A.σ G.lim A.mp scopes vm st.scopes mem) (hsp : SpecOK G A.mp st) :
+    SimGE G A ip (nI (cgE G.mod (ρS scopes) A.φ e lm).1) stk mem st (evalExpr G.cfg fuel e st) :=
+  (allP G hG fuel).pe A hA e st ip stk mem lm scopes vm hs hws hT hpl hrel hsp
+
+/-- **Argument lists** (`SimArgs`): the code is `code(aₙ) ++ … ++ code(a₁)` (`cgArgs`), the VM
+evaluates right to left, the specification (`evalList`) left to right; with all arguments but at
+most one atoms both arrive at the same values (first argument on top of the stack), the same
+output and — when an argument fails — the same fatal error. -/
+theorem call_args_correct (G : GCtx) (hG : G.OK) (fuel : Nat) (A : Act) (hA : A.OK G)
+    (args : List (String × Expr)) (st : St) (ip : Nat) (stk : List SVal) (mem : List (Int × Val)) (lm : LM)
+    (scopes : CScopes) (vm : List (String × Nat))
+    (hs : Frag.okGArgs args = true) (hone : Frag.oneNonAtom args = true)
+    (hws : Frag.wsGArgs scopes A.φ args = true) (hT : ∀ x ∈ Frag.namesGArgs args, x ∈ A.T)
+    (hpl : Placed A.lab A.σ A.c ip (cgArgs G.mod (ρS scopes) A.φ args lm).1)
+    (hrel : StRel G.mod A.T A.N A.σ G.lim A.mp scopes vm st.scopes mem) (hsp : SpecOK G A.mp st) :
+    SimArgs G A ip (nI (cgArgs G.mod (ρS scopes) A.φ args lm).1) stk mem st
+      (evalList G.cfg fuel (args.map (·.2)) st) :=
+  (allP G hG fuel).pargs A hA args st ip stk mem lm scopes vm hs hone hws hT hpl hrel hsp
+
+section Example9
+private def gv (x : String) : Expr := .ident sp0 .int x false false false
+private def gcall (f : String) (args : List Expr) : Expr :=
+  .call sp0 .int (.ident sp0 (.fn [] .int) f false true false) (args.map fun a => ("", a)) false
+private def gprint (es : List Expr) : Stmt :=
+  .exprS sp0 (.call sp0 .null (.ident sp0 (.fn [] .null) "println" false false false) (es.map fun e => ("", e)) false)
+private def gfn (name : String) (params : List String) (ret : Ty) (stmts : List Stmt) (e : Option Expr) : FnDef :=
+  ⟨sp0, name, params.map fun p => ⟨p, .int, false, ""⟩, ret, 0, false, .mk sp0 ret stmts e⟩
+private def gif (c : Expr) (ss : List Stmt) : Stmt := .exprS sp0 (.ifE sp0 .null c (.mk sp0 .null ss none) none)
+private def gasg (op : InfixOp) (x : String) (e : Expr) : Stmt := .exprS sp0 (.assign sp0 (some op) (gv x) e)
+
+/-- `if n < 2 { return n; }` -/
+def fibStmts : List Stmt := [gif (.infix sp0 .bool .lt (gv "n") (.int sp0 2)) [.ret sp0 (some (gv "n"))]]
+/-- `fib(n - 1) + fib(n - 2)` -/
+def fibE : Expr := .infix sp0 .int .add (gcall "fib" [.infix sp0 .int .sub (gv "n") (.int sp0 1)])
+  (gcall "fib" [.infix sp0 .int .sub (gv "n") (.int sp0 2)])
+/-- `fn fib(n: int) -> int { if n < 2 { return n; } fib(n - 1) + fib(n - 2) }` -/
+def fibFd : FnDef := gfn "fib" ["n"] .int fibStmts (some fibE)
+/-- `let i = 0; let acc = 0;`
+`loop { i += 1; if i > k { break; } if i % 2 == 0 { continue; } acc += i; }`
+`while i > 0 { i -= 1; if i > 3 { continue; } if i < 2 { break; } acc += 100; }` -/
+def sumStmts : List Stmt :=
+  [ .letS sp0 "i" .int false .int (.int sp0 0), .letS sp0 "acc" .int false .int (.int sp0 0),
+    .loopS sp0 (.mk sp0 .null [ gasg .add "i" (.int sp0 1),
+       gif (.infix sp0 .bool .gt (gv "i") (gv "k")) [.brk sp0],
+       gif (.infix sp0 .bool .eq (.infix sp0 .int .rem (gv "i") (.int sp0 2)) (.int sp0 0)) [.cont sp0],
+       gasg .add "acc" (gv "i") ] none),
+    .whileS sp0 (.infix sp0 .bool .gt (gv "i") (.int sp0 0)) (.mk sp0 .null [ gasg .sub "i" (.int sp0 1),
+       gif (.infix sp0 .bool .gt (gv "i") (.int sp0 3)) [.cont sp0],
+       gif (.infix sp0 .bool .lt (gv "i") (.int sp0 2)) [.brk sp0],
+       gasg .add "acc" (.int sp0 100) ] none) ]
+/-- `fn sumOdd(k: int) -> int { …; acc }` -/
+def sumFd : FnDef := gfn "sumOdd" ["k"] .int sumStmts (some (gv "acc"))
+/-- `println("result", x, x > 100);` -/
+def repStmts : List Stmt := [gprint [.str sp0 "result", gv "x", .infix sp0 .bool .gt (gv "x") (.int sp0 100)]]
+/-- `fn report(x: int) -> int { println("result", x, x > 100); x }` -/
+def repFd : FnDef := gfn "report" ["x"] .int repStmts (some (gv "x"))
+/-- `fn main() { println(fib(10)); println(report(sumOdd(9)), true, "done"); }` -/
+def mainFd : FnDef := gfn "main" [] .null
+  [gprint [gcall "fib" [.int sp0 10]], gprint [gcall "report" [gcall "sumOdd" [.int sp0 9]], .bool sp0 true, .str sp0 "done"]]
+  none
+def progX : Program :=
+  [{ name := "main", imports := [], singletons := [], globals := [], nImpls := 0, fns := [fibFd, sumFd, repFd, mainFd] }]
+
+/-- The whole program on the models themselves (kernel evaluation): the specification … -/
+example : (match runProgram { prog := progX } 200 with | .ok out _ => out | _ => "?") =
+    "55\nresult 225 true\n225 true done\n" := by
+  decide +kernel
+/-- … and the compiled program on the VM print the same (and the VM ends with a clean core). -/
+example : (match compile progX "main" 100 with
+    | .ok c => (match runMain c {} 50 20000 with
+      | .ok s => (s.st.out, s.stack.length, s.mp, s.calls.length) | _ => ("?", 0, 0, 0))
+    | .error e => (e, 0, 0, 0)) = ("55\nresult 225 true\n225 true done\n", 0, 0, 0) := by
+  decide +kernel
+
+/-- The function table of the module. -/
+def φX : String → Option String := fun n =>
+  if n = "fib" then some "@main.fib" else if n = "sumOdd" then some "@main.sumOdd"
+  else if n = "report" then some "@main.report" else none
+def symFib : SCode := cgFn "main" φX fibFd fibStmts (some fibE) [[]] [] []
+def symSum : SCode := cgFn "main" φX sumFd sumStmts (some (gv "acc")) [[]] [] []
+def symRep : SCode := cgFn "main" φX repFd repStmts (some (gv "x")) [[]] [] []
+private def relG (c : SCode) : NCode := (stripLabels c).map (resolve (labelIndex c))
+/-- The VM code: `renameVariables (relocateLabels (cgFn …))` for the three functions. -/
+def codeX : Code := [⟨"@main.fib", renameVars (relG symFib)⟩, ⟨"@main.sumOdd", renameVars (relG symSum)⟩,
+  ⟨"@main.report", renameVars (relG symRep)⟩]
+
+/-- A boolean comparison of instruction lists that the kernel can evaluate (the derived `BEq` of
+`PVal` is not structural). -/
+private def pvalBeq : PVal → PVal → Bool
+  | .null, .null => true | .int a, .int b => a == b | .float a, .float b => a == b | .bool a, .bool b => a == b
+  | .str a, .str b => a == b | .noneOpt, .noneOpt => true | .emptyList, .emptyList => true
+  | .emptyAnyObj, .emptyAnyObj => true | .range0, .range0 => true | .vmFn a, .vmFn b => a == b | _, _ => false
+local instance (priority := high) : BEq PVal := ⟨pvalBeq⟩
+deriving instance BEq for Hms.Core.Ty
+deriving instance BEq for Hms.Core.Comp.Instr
+
+/-- **The real compiler produces this code**: `Comp.compile` on the program gives, for `fib`,
+`sumOdd` and `report`, exactly `codeX` — i.e. `compileFn` emits `cgFn …` up to the names of
+labels and variables, which `relocateLabels`/`renameVariables` erase (kernel evaluation of the
+compiler model, compared instruction by instruction, spans included). -/
+example : (match compile progX "main" 100 with
+    | .ok c => (c.fns.filter fun f => f.name != "@main.@init" && f.name != "@main.main").map (fun f => (f.name, f.code))
+        == codeX.map (fun f => (f.name, f.code))
+    | .error _ => false) = true := by decide +kernel
+
+/-- The context: program, code, default limits, the three callable functions, frames of at
+most 6 cells above memory pointer 0. -/
+def GX : GCtx :=
+  ⟨{ prog := progX }, codeX, {}, "main", {}, fun g => g = "fib" ∨ g = "sumOdd" ∨ g = "report", 6, 0⟩
+
+private theorem relocate_relG (c : SCode) (h : (relocate c).isSome = true) : relocate c = some (relG c) := by
+  obtain ⟨r, hr⟩ := Option.isSome_iff_exists.mp h
+  rw [hr, relocate_some c r hr]; rfl
+
+private theorem phiX : PhiOK GX φX := by
+  intro name f h
+  unfold φX at h
+  split at h
+  · rename_i hn; subst hn; cases h
+    exact ⟨by decide +kernel, Or.inl rfl, fibFd, rfl, rfl⟩
+  · split at h
+    · rename_i hn; subst hn; cases h
+      exact ⟨by decide +kernel, Or.inr (Or.inl rfl), sumFd, rfl, rfl⟩
+    · split at h
+      · rename_i hn; subst hn; cases h
+        exact ⟨by decide +kernel, Or.inr (Or.inr rfl), repFd, rfl, rfl⟩
+      · cases h
+
+/-- The three functions satisfy the hypotheses of the simulation (`fn_compiled_ok`; every side
+condition is checked by kernel evaluation). -/
+theorem fnOK_fib : FnOK GX "fib" fibFd
+    ⟨renameVars (relG symFib), slotFn (relG symFib), labelIndex symFib, (· ∈ varNames (relG symFib)), ["n", "fib"],
+      φX, [[]], [], []⟩ fibStmts fibE :=
+  fn_compiled_ok GX fibFd fibStmts fibE φX [[]] [] [] ["n", "fib"] (relG symFib) ⟨sp0, .int, rfl⟩
+    (by decide) (relocate_relG _ (by decide +kernel)) (by decide +kernel)
+    (by
+      have h : mangleFnName GX.mod fibFd.name = "@main.fib" := by decide +kernel
+      rw [h]; simp [findCode, codeX, GX])
+    (by decide +kernel) (by decide +kernel) (by decide +kernel) (by decide +kernel) (by decide +kernel)
+    (by decide +kernel) (by decide +kernel) (by decide +kernel) (by decide +kernel) (by decide +kernel)
+    (by decide +kernel) phiX
+
+theorem fnOK_sum : FnOK GX "sumOdd" sumFd
+    ⟨renameVars (relG symSum), slotFn (relG symSum), labelIndex symSum, (· ∈ varNames (relG symSum)),
+      ["k", "i", "acc"], φX, [[]], [], []⟩ sumStmts (gv "acc") :=
+  fn_compiled_ok GX sumFd sumStmts (gv "acc") φX [[]] [] [] ["k", "i", "acc"] (relG symSum) ⟨sp0, .int, rfl⟩
+    (by decide) (relocate_relG _ (by decide +kernel)) (by decide +kernel)
+    (by
+      have h : mangleFnName GX.mod sumFd.name = "@main.sumOdd" := by decide +kernel
+      rw [h]; simp [findCode, codeX, GX])
+    (by decide +kernel) (by decide +kernel) (by decide +kernel) (by decide +kernel) (by decide +kernel)
+    (by decide +kernel) (by decide +kernel) (by decide +kernel) (by decide +kernel) (by decide +kernel)
+    (by decide +kernel) phiX
+
+theorem fnOK_rep : FnOK GX "report" repFd
+    ⟨renameVars (relG symRep), slotFn (relG symRep), labelIndex symRep, (· ∈ varNames (relG symRep)),
+      ["x", "println"], φX, [[]], [], []⟩ repStmts (gv "x") :=
+  fn_compiled_ok GX repFd repStmts (gv "x") φX [[]] [] [] ["x", "println"] (relG symRep) ⟨sp0, .int, rfl⟩
+    (by decide) (relocate_relG _ (by decide +kernel)) (by decide +kernel)
+    (by
+      have h : mangleFnName GX.mod repFd.name = "@main.report" := by decide +kernel
+      rw [h]; simp [findCode, codeX, GX])
+    (by decide +kernel) (by decide +kernel) (by decide +kernel) (by decide +kernel) (by decide +kernel)
+    (by decide +kernel) (by decide +kernel) (by decide +kernel) (by decide +kernel) (by decide +kernel)
+    (by decide +kernel) phiX
+
+theorem gx_ok : GX.OK := by
+  refine ⟨?_, by decide, by decide, rfl, rfl⟩
+  intro g fd hK hfind
+  rcases hK with rfl | rfl | rfl
+  · have h : findFn GX.cfg.prog GX.mod "fib" = some fibFd := rfl
+    rw [h] at hfind; cases hfind
+    exact ⟨_, _, _, fnOK_fib⟩
+  · have h : findFn GX.cfg.prog GX.mod "sumOdd" = some sumFd := rfl
+    rw [h] at hfind; cases hfind
+    exact ⟨_, _, _, fnOK_sum⟩
+  · have h : findFn GX.cfg.prog GX.mod "report" = some repFd := rfl
+    rw [h] at hfind; cases hfind
+    exact ⟨_, _, _, fnOK_rep⟩
+
+/-- The specification state at a top-level call: module `main`, depth 0, nothing printed. -/
+def stX : St := { module := "main" }
+private def isIntV (n : Int) : Except Ctl Val → Bool
+  | .ok (.int i) => i.toInt == n
+  | _ => false
+
+private theorem spec_fib :
+    isIntV 55 (callBody GX.cfg 120 sp0 GX.mod fibFd.params fibFd.body [.int (I64.ofInt 10)] stX).1 = true ∧
+    (callBody GX.cfg 120 sp0 GX.mod fibFd.params fibFd.body [.int (I64.ofInt 10)] stX).2.out = "" := by
+  decide +kernel
+
+/-- A call through the theorem: specification result `n` and output `out` ↦ the VM run. -/
+private theorem callX (g : String) (fd : FnDef) (I : FnInfo) (stmts : List Stmt) (e : Expr) (hK : GX.K g)
+    (hfind : findFn GX.cfg.prog GX.mod g = some fd) (hFn : FnOK GX g fd I stmts e) (fuel : Nat) (arg n : Int)
+    (out : String)
+    (h1 : isIntV n (callBody GX.cfg fuel sp0 GX.mod fd.params fd.body [.int (I64.ofInt arg)] stX).1 = true)
+    (h2 : (callBody GX.cfg fuel sp0 GX.mod fd.params fd.body [.int (I64.ofInt arg)] stX).2.out = out) :
+    ∃ (i : I64) (mem' : List (Int × Val)), i.toInt = n ∧
+      ∀ k, ∃ k', execN codeX {} k' (mkS {} [⟨mangleFnName "main" g, 0⟩] 0 k [⟨.int (I64.ofInt arg), none⟩] [] "") =
+        .next (mkS {} [] 0 (k + k') [⟨.int i, none⟩] mem' out) := by
+  rcases hev : callBody GX.cfg fuel sp0 GX.mod fd.params fd.body [.int (I64.ofInt arg)] stX with ⟨res, st'⟩
+  rw [hev] at h1 h2
+  cases res with
+  | error e => simp [isIntV] at h1
+  | ok v =>
+    cases v <;> simp [isIntV] at h1
+    obtain ⟨_, mem', hrun, _⟩ := call_returns GX gx_ok fuel g fd I stmts e hK hfind hFn sp0 [.int (I64.ofInt arg)] stX
+      st' _ [] 0 [] [] ⟨rfl, rfl, rfl, by decide⟩ (by decide) hev
+    simp only at h2
+    rw [h2] at hrun
+    exact ⟨_, mem', h1, hrun⟩
+
+/-- **`fib(10)` on the VM, through `call_correct`**: from the first instruction of `@main.fib`
+with 10 on the stack, 177 activations (two recursive calls each, `return n;` in the base case)
+later the VM is back with no frame left, memory pointer 0 and 55 on the stack. -/
+example : ∃ (i : I64) (mem' : List (Int × Val)), i.toInt = 55 ∧
+    ∀ k, ∃ k', execN codeX {} k' (mkS {} [⟨"@main.fib", 0⟩] 0 k [⟨.int (I64.ofInt 10), none⟩] [] "") =
+      .next (mkS {} [] 0 (k + k') [⟨.int i, none⟩] mem' "") := by
+  obtain ⟨fuel, hfuel⟩ : ∃ n : Nat, n = 120 := ⟨120, rfl⟩
+  have h := callX "fib" fibFd _ _ _ (Or.inl rfl) rfl fnOK_fib fuel 10 55 ""
+  subst hfuel
+  exact h spec_fib.1 spec_fib.2
+end Example9
+
+section ArgsOrderWitness
+/-- `fn a() -> int { println("a"); 1 }  fn b() -> int { println("b"); 2 }`
+`fn add(x: int, y: int) -> int { x + y }  fn main() { println(add(a(), b())); }` -/
+private def v13prog : Program :=
+  [{ name := "main", imports := [], singletons := [], globals := [], nImpls := 0,
+     fns := [gfn "a" [] .int [gprint [.str sp0 "a"]] (some (.int sp0 1)),
+             gfn "b" [] .int [gprint [.str sp0 "b"]] (some (.int sp0 2)),
+             gfn "add" ["x", "y"] .int [] (some (.infix sp0 .int .add (gv "x") (gv "y"))),
+             gfn "main" [] .null [gprint [gcall "add" [gcall "a" [], gcall "b" []]]] none] }]
+
+/-- The call `add(a(), b())` is outside the fragment only because two arguments are not atoms … -/
+example : Frag.okGArgs [("", gcall "a" []), ("", gcall "b" [])] = true ∧
+    Frag.oneNonAtom [("", gcall "a" []), ("", gcall "b" [])] = false := by decide
+
+/-- **Why at most one argument may have an effect** (`args_order_witness`, open finding V13): the
+specification evaluates arguments left to right and prints `a` first … -/
+theorem args_order_witness_spec :
+    (match runProgram { prog := v13prog } 100 with | .ok out _ => out | _ => "?") = "a\nb\n3\n" := by
+  decide +kernel
+/-- … the compiled code evaluates them right to left (`code(aₙ) … code(a₁)`) and prints `b`
+first: with two effectful arguments the statement of `call_args_correct` is false. -/
+theorem args_order_witness_vm :
+    (match compile v13prog "main" 100 with
+      | .ok c => (match runMain c {} 50 1000 with | .ok s => s.st.out | _ => "?")
+      | .error e => e) = "b\na\n3\n" := by
+  decide +kernel
+
+private def spDiv : Span := ⟨1, 1, 1, 6⟩
+private def spRem : Span := ⟨2, 1, 2, 6⟩
+/-- `fn add(x: int, y: int) -> int { x + y }  fn main() { println(add(1 / 0, 1 % 0)); }` with the
+division on line 1 and the remainder on line 2. -/
+private def spanProg : Program :=
+  [{ name := "main", imports := [], singletons := [], globals := [], nImpls := 0,
+     fns := [gfn "add" ["x", "y"] .int [] (some (.infix sp0 .int .add (gv "x") (gv "y"))),
+             gfn "main" [] .null [gprint [gcall "add" [.infix spDiv .int .div (.int sp0 1) (.int sp0 0),
+               .infix spRem .int .rem (.int sp0 1) (.int sp0 0)]]] none] }]
+private def fatalLine : Hms.Core.Outcome → Option (String × Nat)
+  | .fatal kd _ sp _ _ => some (kd, sp.sl)
+  | _ => none
+private def fatalLineVM : Hms.Core.VM.Outcome → Option (String × Nat)
+  | .fatal kd _ sp _ => some (kd, sp.sl)
+  | _ => none
+
+/-- **Pure arguments are not enough either**: both arguments are pure and both fail; the
+specification reports the first one's error (the division, line 1), the VM the last one's (the
+remainder, line 2) — same kind, different message and span. Hence "all but at most one argument
+are atoms" (`Frag.oneNonAtom`) rather than "pure". -/
+theorem args_order_witness_fatal :
+    fatalLine (runProgram { prog := spanProg } 100) = some ("ValueError", 1) ∧
+    (match compile spanProg "main" 100 with
+      | .ok c => fatalLineVM (runMain c {} 50 1000)
+      | .error _ => none) = some ("ValueError", 2) := by
+  decide +kernel
+end ArgsOrderWitness
+
+/-! ## 10. `loop`, `break`, `continue`, `return` -/
+
+/-- **Statement sequences of the general fragment inside an activation** (`SimGS`). `loops`: the
+enclosing loops' `(break label, continue label)` as in `CState.loops` (`popTries` does nothing
+without `try`); `lscopes`: the compiler scopes at the innermost loop, `d ≥ 1` block levels up;
+`GRel`: `StRel` plus the function's cleanup label being visible to `return`. For the code
+`cgSs …` placed at `ip`:
+* normal completion ↦ the VM is at the end of the code, operand stack as before, the relation
+  holds for the new scopes/memory, same output;
+* `break` / `continue` (only inside a loop: `Frag.okGSs (!loops.isEmpty)`) ↦ the VM is at the
+  innermost loop's break / continue label, and the scopes `d` levels up are related again — the
+  specification's `inScope` drops exactly the block levels the jump leaves;
+* `return v` ↦ the VM is at the cleanup label with `v` pushed;
+* fatal ↦ the same fatal interrupt after the same output. In every case the cells below the
+  activation's frame (`≤ A.mp - A.nv`: the callers') are untouched. -/
+theorem gstmts_correct (G : GCtx) (hG : G.OK) (fuel : Nat) (A : Act) (hA : A.OK G)
+    (loops : List (String × String)) (lscopes : CScopes) (d : Nat) (ss : List Stmt) (env : CEnv) (spec : St)
+    (ip : Nat) (stk : List SVal) (mem : List (Int × Val))
+    (hs : Frag.okGSs (!loops.isEmpty) ss = true) (hT : ∀ x ∈ Frag.identsGSs ss, x ∈ A.T)
+    (hws : Frag.wsGSs G.mod A.src A.φ loops ss env = true)
+    (hN : ∀ m ∈ codeVars (cgSs G.mod A.src A.φ loops ss env).1, A.N m)
+    (hpl : Placed A.lab A.σ A.c ip (cgSs G.mod A.src A.φ loops ss env).1)
+    (hd : 1 ≤ d) (hls : lscopes = env.scopes.drop d)
+    (hrel : GRel G A env.scopes env.vm spec.scopes mem) (hsp : SpecOK G A.mp spec) :
+    SimGS G A loops lscopes d ip (nI (cgSs G.mod A.src A.φ loops ss env).1) stk mem
+      (GRel G A (cgSs G.mod A.src A.φ loops ss env).2.scopes (cgSs G.mod A.src A.φ loops ss env).2.vm) spec
+      (evalStmts G.cfg fuel ss spec) :=
+  (allP G hG fuel).pgss A hA loops lscopes d ss env spec ip stk mem hs hT hws hN hpl hd hls hrel hsp
+
+/-- **`loop { … }` and `while c { … }` follow the specification's `loopRun`** (`cnd = none`:
+`loop`). The code is `continue: [code(c); JumpIfFalse break;] body; Jump continue; break:`; a
+`break` in the body ends the loop normally, a `continue` or a completed body starts the next
+iteration (and re-evaluates the condition), `return`/fatal leave it; the outcome of the whole loop —
+after any number of iterations, `loopRun`'s recursion — is simulated as in `gstmts_correct`, with
+the loop's own scopes as invariant. -/
+theorem loop_correct (G : GCtx) (hG : G.OK) (fuel : Nat) (A : Act) (hA : A.OK G)
+    (loops : List (String × String)) (lscopes : CScopes) (d : Nat) (sp : Span) (cnd : Option Expr) (body : Block)
+    (env : CEnv) (spec : St) (ip : Nat) (stk : List SVal) (mem : List (Int × Val))
+    (stmt : Stmt) (hstmt : stmt = match cnd with | some c => .whileS sp c body | none => .loopS sp body)
+    (hs : Frag.okGS (!loops.isEmpty) stmt = true) (hT : ∀ x ∈ Frag.identsGS stmt, x ∈ A.T)
+    (hws : Frag.wsGS G.mod A.src A.φ loops stmt env = true)
+    (hN : ∀ m ∈ codeVars (cgS G.mod A.src A.φ loops stmt env).1, A.N m)
+    (hpl : Placed A.lab A.σ A.c ip (cgS G.mod A.src A.φ loops stmt env).1)
+    (hrel : GRel G A env.scopes env.vm spec.scopes mem) (hsp : SpecOK G A.mp spec) :
+    SimGS G A loops lscopes d ip (nI (cgS G.mod A.src A.φ loops stmt env).1) stk mem
+      (GRel G A env.scopes env.vm) spec (loopRun G.cfg fuel cnd body spec) := by
+  subst hstmt
+  exact (allP G hG fuel).pgl A hA loops lscopes d sp cnd body env spec ip stk mem hs hT hws hN hpl hrel hsp
+
+section Example10
+private theorem spec_sum :
+    isIntV 225 (callBody GX.cfg 120 sp0 GX.mod sumFd.params sumFd.body [.int (I64.ofInt 9)] stX).1 = true ∧
+    (callBody GX.cfg 120 sp0 GX.mod sumFd.params sumFd.body [.int (I64.ofInt 9)] stX).2.out = "" := by
+  decide +kernel
+
+/-- **`sumOdd(9)` on the VM, through the theorems**: the `loop` runs ten times — five `continue`s,
+four additions, one `break` — then the `while` nine times — five `continue`s (which re-evaluate
+the condition), two additions, one `break`; the VM arrives with `1+3+5+7+9 + 200 = 225` on the
+caller's stack, no frame left and memory pointer 0. -/
+example : ∃ (i : I64) (mem' : List (Int × Val)), i.toInt = 225 ∧
+    ∀ k, ∃ k', execN codeX {} k' (mkS {} [⟨"@main.sumOdd", 0⟩] 0 k [⟨.int (I64.ofInt 9), none⟩] [] "") =
+      .next (mkS {} [] 0 (k + k') [⟨.int i, none⟩] mem' "") := by
+  obtain ⟨fuel, hfuel⟩ : ∃ n : Nat, n = 120 := ⟨120, rfl⟩
+  have h := callX "sumOdd" sumFd _ _ _ (Or.inr (Or.inl rfl)) rfl fnOK_sum fuel 9 225 ""
+  subst hfuel
+  exact h spec_sum.1 spec_sum.2
+end Example10
+
+/-! ## 11. `println` -/
+
+/-- The specification's `println`: the displayed values joined by spaces and a newline are
+appended to the output buffer (`printText`; `none`: a value the model cannot display). -/
+theorem println_spec (vals : List Val) (sp : Span) (st : St) :
+    callBuiltin "println" vals sp st = match printText st.heap vals with
+      | some t => (.ok .null, { st with out := st.out ++ t })
+      | none => (.error (.unsupported "display of this value"), st) :=
+  println_run vals sp st
+
+/-- The VM's `Call_Val` on the builtin `println` with `n` arguments below the argument count
+(first argument on top): the host call appends the same text to the VM's output buffer, pops
+callee, count and arguments, and pushes nothing. -/
+theorem println_vm (code : Code) (lim : Limits) (s : VMState) (fn : String) (ip : Nat) (rest : List Frame)
+    (mp : Int) (k : Nat) (stk : List SVal) (mem : List (Int × Val)) (out : String) (c : List (RInstr × Span))
+    (hf : findCode code fn = some c) (sp : Span) (svs : List SVal) (o1 o2 : Option Org) (t : String)
+    (hx : c[ip]? = some (.callVal, sp)) (hn : svs.length < 2 ^ 64)
+    (ht : printText s.st.heap (svs.map (·.v)) = some t) :
+    exec1 code lim (mkS s (⟨fn, ip⟩ :: rest) mp k
+        (⟨.int (I64.ofInt (svs.length : Int)), o1⟩ :: ⟨.builtin "println", o2⟩ :: (svs ++ stk)) mem out) =
+      .next (mkS s (⟨fn, ip + 1⟩ :: rest) mp (k + 1) stk mem (out ++ t)) :=
+  mkS_callVal_println code lim s fn ip rest mp k stk mem out c hf sp svs o1 o2 t hx hn ht
+
+/-- **`println(e₁, …, eₙ);` as a statement** (an instance of the statement simulation): the
+arguments are in the expression fragment — so they may contain calls — all but at most one
+atoms; the code is `code(eₙ) … code(e₁); GetGlobImm(println); CopyPush(n); Call_Val`. When the
+specification completes the statement, the VM is at the end of that code with the operand stack
+as before and *the same output buffer*; a fatal error in an argument is the same fatal interrupt. -/
+theorem println_correct (G : GCtx) (hG : G.OK) (fuel : Nat) (A : Act) (hA : A.OK G)
+    (loops : List (String × String)) (lscopes : CScopes) (d : Nat) (sp csp isp : Span) (cty ity : Ty)
+    (g f s sw : Bool) (args : List (String × Expr)) (env : CEnv) (spec : St) (ip : Nat) (stk : List SVal)
+    (mem : List (Int × Val)) (st : Stmt)
+    (hst : st = .exprS sp (.call csp cty (.ident isp ity "println" g f s) args sw))
+    (hs : Frag.okGS (!loops.isEmpty) st = true) (hT : ∀ x ∈ Frag.identsGS st, x ∈ A.T)
+    (hws : Frag.wsGS G.mod A.src A.φ loops st env = true)
+    (hN : ∀ m ∈ codeVars (cgS G.mod A.src A.φ loops st env).1, A.N m)
+    (hpl : Placed A.lab A.σ A.c ip (cgS G.mod A.src A.φ loops st env).1)
+    (hd : 1 ≤ d) (hls : lscopes = env.scopes.drop d)
+    (hrel : GRel G A env.scopes env.vm spec.scopes mem) (hsp : SpecOK G A.mp spec) :
+    SimGS G A loops lscopes d ip (nI (cgS G.mod A.src A.φ loops st env).1) stk mem
+      (GRel G A (cgS G.mod A.src A.φ loops st env).2.scopes (cgS G.mod A.src A.φ loops st env).2.vm) spec
+      (evalStmt G.cfg fuel st spec) := by
+  subst hst
+  exact (allP G hG fuel).pgs A hA loops lscopes d _ env spec ip stk mem hs hT hws hN hpl hd hls hrel hsp
+
+section Example11
+private theorem spec_rep :
+    isIntV 7 (callBody GX.cfg 120 sp0 GX.mod repFd.params repFd.body [.int (I64.ofInt 7)] stX).1 = true ∧
+    (callBody GX.cfg 120 sp0 GX.mod repFd.params repFd.body [.int (I64.ofInt 7)] stX).2.out = "result 7 false\n" := by
+  decide +kernel
+
+/-- **`report(7)` on the VM, through the theorems**: `println("result", x, x > 100)` — a string
+literal, a variable and a comparison, pushed in reverse, `GetGlobImm(println)`, the count 3,
+`Call_Val` — leaves `result 7 false` and a newline in the VM's output buffer, as in the
+specification's; then 7 is returned. -/
+example : ∃ (i : I64) (mem' : List (Int × Val)), i.toInt = 7 ∧
+    ∀ k, ∃ k', execN codeX {} k' (mkS {} [⟨"@main.report", 0⟩] 0 k [⟨.int (I64.ofInt 7), none⟩] [] "") =
+      .next (mkS {} [] 0 (k + k') [⟨.int i, none⟩] mem' "result 7 false\n") := by
+  obtain ⟨fuel, hfuel⟩ : ∃ n : Nat, n = 120 := ⟨120, rfl⟩
+  have h := callX "report" repFd _ _ _ (Or.inr (Or.inr rfl)) rfl fnOK_rep fuel 7 7 "result 7 false\n"
+  subst hfuel
+  exact h spec_rep.1 spec_rep.2
+end Example11
 
 end HmsProofs.C01VM
